@@ -242,6 +242,63 @@ func c19(c *Ctx) {
 		})
 	}
 	r.Stat("tainted_branches", nBr)
+	// the sink the log lines are written to is never the nil interface: every value stored into an interface-typed
+	// package-level variable of the logger on which methods are invoked is a concrete value boxed at the store (a nil
+	// *os.File inside it makes Write return an error, a nil interface makes the log call — and the mocked call — panic)
+	if lp := p.SPkg[Mod+"/internal/logger"]; lp != nil {
+		for _, m := range lp.Members {
+			g, ok := m.(*ssa.Global)
+			if !ok {
+				continue
+			}
+			pt, ok := g.Type().Underlying().(*types.Pointer)
+			if !ok || !types.IsInterface(pt.Elem()) {
+				continue
+			}
+			invoked := false
+			for _, f := range p.FuncsIn("internal/logger") {
+				eachInstr(f, func(i ssa.Instruction) {
+					if c := callCommon(i); c != nil && c.IsInvoke() {
+						if ld, ok := c.Value.(*ssa.UnOp); ok && ld.X == ssa.Value(g) {
+							invoked = true
+						}
+					}
+				})
+			}
+			if !invoked {
+				continue
+			}
+			for _, f := range p.Funcs {
+				eachInstr(f, func(i ssa.Instruction) {
+					st, ok := i.(*ssa.Store)
+					if !ok || st.Addr != ssa.Value(g) {
+						return
+					}
+					var boxed func(v ssa.Value, d int) bool
+					boxed = func(v ssa.Value, d int) bool {
+						switch x := resolveLocal(v).(type) {
+						case *ssa.MakeInterface:
+							return true
+						case *ssa.Phi:
+							if d > 3 {
+								return false
+							}
+							for _, e := range x.Edges {
+								if !boxed(e, d+1) {
+									return false
+								}
+							}
+							return len(x.Edges) > 0
+						}
+						return false
+					}
+					okV := boxed(st.Val, 0)
+					r.Check(okV, "C19.R3", "log sink "+g.Name()+" assigned in "+shortName(f), p.Pos(posOf(st)), "a concrete writer boxed at the assignment",
+						"the log sink can become the nil interface (its new value comes from "+atomsString(origins(st.Val))+", not from a concrete writer): the next log line, written while a mock is applied or called, panics")
+				})
+			}
+		}
+	}
 	// the renderer used for log text (called with the mock's arguments/results) is itself log-only, in particular
 	// it never invokes methods of the rendered values directly
 	if sv := p.Fn("arg", "SprintV"); sv != nil {
